@@ -26,7 +26,8 @@ PJ(st) == [ent   |-> [p \in Prefix |-> SeqOf(st.ent[p])],
            did   |-> st.did, stats |-> st.stats, cnt |-> st.cnt, defer |-> st.defer,
            closed |-> SeqOf(st.closed),
            \* C20: what replaying the FIB requests must yield, and the outstanding next-hop registrations
-           fib   |-> [p \in Prefix |-> SeqOf({e.nh : e \in EcmpSet(st, p)})],
+           fib   |-> [p \in Prefix |-> SeqOf(FibNh(st, p))],
+           vfib  |-> [v \in Vrfs |-> [p \in VpnPfx |-> VrfMode(st, v, p)]],
            reg   |-> [n \in NextHops |-> Cardinality({<<p, e>> \in (Prefix \X UNION {st.ent[q] : q \in Prefix}) : e \in st.ent[p] /\ e.nh = n})]]
 
 \* walk mode (tlc -simulate, one worker): consecutive lines form a behaviour
